@@ -128,7 +128,7 @@ def main():
                                     "C27.returned_ids_are_the_new_rows": e_rows_exist,
                                     "C27.distinct_and_auto_above_existing": e_distinct_auto},
                     classify=_classify)
-  fn.check(rep, c, _cases, exhaustive=True)
+  fn.check(rep, c, _cases, exhaustive=True, warm_engine=True)
   return rep.finish()
 
 
